@@ -24,7 +24,7 @@ pub fn plan() -> Plan {
     lossy.persistent_pm = 200;
     Plan {
         profiles: vec![mixed, turns, single, lossy],
-        directed: vec![("alias-limit-exceeded", |h| h.alias_limit_exceeded())],
+        directed: vec![("alias-limit-exceeded", |h| h.alias_limit_exceeded()), ("alias-reuse-after-unsubscribe", |h| h.alias_reuse_after_unsubscribe())],
         quick_histories: 400,
         thorough_histories: 240_000,
         s5: Some((2, 30, s4common::s5_default(false, 0))),
